@@ -54,9 +54,10 @@ import (
 
 // Passphrases are referred to by index.  None is longer than 64 bytes or ends
 // in a NUL byte (C17's known finding is out of scope here).  1..5 and 11 are
-// near misses of each other.
+// near misses of each other; 0 is the empty passphrase (Create refuses it as
+// a private passphrase, ChangePassphrase does not).
 var passTable = []string{
-	0:  "public-pass-0",
+	0:  "", // the model's empty_pass
 	1:  "private-pass-1",
 	2:  "private-pass-1 ",
 	3:  "Private-pass-1",
@@ -65,7 +66,7 @@ var passTable = []string{
 	6:  "new-private-2",
 	7:  "new-private-3",
 	8:  "public-pass-B",
-	9:  "",
+	9:  "public-pass-0",
 	10: "x",
 	11: "private-pass-1private-pass-1",
 	12: "public-pass-0 ",
@@ -873,7 +874,8 @@ func (w *world) judge(o c05Op, wasLocked, wasWatch bool, rc string, material boo
 			if w.mgr.IsLocked() != wasLocked {
 				w.flag("lock_state_changed_by_passphrase_change", "ChangePassphrase(private)")
 			}
-		} else if o.P == w.curPriv && !wasWatch {
+		} else if o.P == w.curPriv && !wasWatch && rc == "wrongpass" {
+			// (an empty NEW passphrase may be refused: that is not a rejection of the old one)
 			w.flag("right_passphrase_rejected", "ChangePassphrase(private)")
 		}
 	case "chpub":
@@ -888,7 +890,7 @@ func (w *world) judge(o c05Op, wasLocked, wasWatch bool, rc string, material boo
 				w.curPub = o.Q
 				w.pubFromChange = true
 			}
-		} else if o.P == w.curPub {
+		} else if o.P == w.curPub && rc == "wrongpass" {
 			w.flag("right_passphrase_rejected", "ChangePassphrase(public)")
 		}
 	case "convert":
@@ -1071,7 +1073,7 @@ type belief struct {
 }
 
 func genCase(r *gen.R, maxOps int) (c05Input, []string) {
-	in := c05Input{Pub: 0, Priv: 1, ProbeSeed: int64(r.Intn(1 << 30))}
+	in := c05Input{Pub: 9, Priv: 1, ProbeSeed: int64(r.Intn(1 << 30))}
 	switch r.Pick(6, 3, 1) {
 	case 0:
 		in.Probe = "all"
@@ -1089,8 +1091,8 @@ func genCase(r *gen.R, maxOps int) (c05Input, []string) {
 	for i := range scopes {
 		b.accts[i] = []acctRec{{0, false}}
 	}
-	privPool := []int{1, 2, 3, 4, 5, 6, 7, 9, 10, 11}
-	pubPool := []int{0, 8, 12, 9}
+	privPool := []int{1, 2, 3, 4, 5, 6, 7, 10, 11, 1, 2, 3, 4, 5, 6, 7, 10, 11, 0}
+	pubPool := []int{9, 8, 12, 0}
 	wrongPriv := func() int {
 		// near misses of the current passphrase first
 		for tries := 0; tries < 20; tries++ {
@@ -1254,31 +1256,34 @@ func fixedCases() []c05Input {
 	key := func(a, br, idx uint32) *c05Key { return &c05Key{T: "c", Acct: a, Br: br, Idx: idx} }
 	return []c05Input{
 		// cached derived key, then lock, then the cache variant again
-		{Pub: 0, Priv: 1, Probe: "none", Ops: []c05Op{{K: "unlock", P: 1}, {K: "props", Acct: 0}, {K: "dcache", Acct: 0, Br: 0, Idx: 7},
+		{Pub: 9, Priv: 1, Probe: "none", Ops: []c05Op{{K: "unlock", P: 1}, {K: "props", Acct: 0}, {K: "dcache", Acct: 0, Br: 0, Idx: 7},
 			{K: "lock"}, {K: "dcache", Acct: 0, Br: 0, Idx: 7}, {K: "dcache", Acct: 0, Br: 0, Idx: 8}}},
 		// secret scripts of the three kinds, then lock
-		{Pub: 0, Priv: 1, Probe: "all", Ops: []c05Op{{K: "unlock", P: 1}, {K: "impscript", N: 1, Kind: "p2sh", Sec: true},
+		{Pub: 9, Priv: 1, Probe: "all", Ops: []c05Op{{K: "unlock", P: 1}, {K: "impscript", N: 1, Kind: "p2sh", Sec: true},
 			{K: "impscript", N: 2, Kind: "witness", Sec: true}, {K: "impscript", N: 3, Kind: "taproot", Sec: true},
-			{K: "impscript", N: 4, Kind: "witness"}, {K: "lock"}, {K: "unlock", P: 2}, {K: "unlock", P: 1}, {K: "open", P: 0}, {K: "unlock", P: 1}, {K: "lock"}}},
+			{K: "impscript", N: 4, Kind: "witness"}, {K: "lock"}, {K: "unlock", P: 2}, {K: "unlock", P: 1}, {K: "open", P: 9}, {K: "unlock", P: 1}, {K: "lock"}}},
 		// passphrase change while unlocked and while locked, restart in between
-		{Pub: 0, Priv: 1, Probe: "all", Ops: []c05Op{{K: "next", Acct: 0}, {K: "unlock", P: 1}, {K: "chpriv", P: 1, Q: 6}, {K: "unlock", P: 1},
-			{K: "unlock", P: 6}, {K: "open", P: 0}, {K: "unlock", P: 1}, {K: "unlock", P: 6}, {K: "lock"}, {K: "chpriv", P: 6, Q: 2},
-			{K: "unlock", P: 6}, {K: "unlock", P: 2}, {K: "chpub", P: 0, Q: 8}, {K: "open", P: 0}, {K: "open", P: 8}, {K: "unlock", P: 1}, {K: "unlock", P: 2}}},
+		{Pub: 9, Priv: 1, Probe: "all", Ops: []c05Op{{K: "next", Acct: 0}, {K: "unlock", P: 1}, {K: "chpriv", P: 1, Q: 6}, {K: "unlock", P: 1},
+			{K: "unlock", P: 6}, {K: "open", P: 9}, {K: "unlock", P: 1}, {K: "unlock", P: 6}, {K: "lock"}, {K: "chpriv", P: 6, Q: 2},
+			{K: "unlock", P: 6}, {K: "unlock", P: 2}, {K: "chpub", P: 9, Q: 8}, {K: "open", P: 9}, {K: "open", P: 8}, {K: "unlock", P: 1}, {K: "unlock", P: 2}}},
 		// wrong passphrase on an unlocked manager
-		{Pub: 0, Priv: 1, Probe: "all", Ops: []c05Op{{K: "unlock", P: 1}, {K: "next", Acct: 0}, {K: "imppriv", N: 1}, {K: "unlock", P: 3},
+		{Pub: 9, Priv: 1, Probe: "all", Ops: []c05Op{{K: "unlock", P: 1}, {K: "next", Acct: 0}, {K: "imppriv", N: 1}, {K: "unlock", P: 3},
 			{K: "privkey", A: key(0, 0, 0)}, {K: "unlock", P: 1}, {K: "unlock", P: 1}}},
 		// account loaded while unlocked, then lock (last address objects)
-		{Pub: 0, Priv: 1, Probe: "none", Ops: []c05Op{{K: "next", Acct: 0}, {K: "open", P: 0}, {K: "unlock", P: 1}, {K: "props", Acct: 0}, {K: "lock"}}},
+		{Pub: 9, Priv: 1, Probe: "none", Ops: []c05Op{{K: "next", Acct: 0}, {K: "open", P: 9}, {K: "unlock", P: 1}, {K: "props", Acct: 0}, {K: "lock"}}},
 		// watch-only (imported xpub) account loaded, then lock / unlock
-		{Pub: 0, Priv: 1, Probe: "some", ProbeSeed: 5, Ops: []c05Op{{K: "unlock", P: 1}, {K: "newwatch", Sc: 2}, {K: "next", Sc: 2, Acct: 1}, {K: "lock"}, {K: "unlock", P: 1},
-			{K: "open", P: 0}, {K: "unlock", P: 1}}},
+		{Pub: 9, Priv: 1, Probe: "some", ProbeSeed: 5, Ops: []c05Op{{K: "unlock", P: 1}, {K: "newwatch", Sc: 2}, {K: "next", Sc: 2, Acct: 1}, {K: "lock"}, {K: "unlock", P: 1},
+			{K: "open", P: 9}, {K: "unlock", P: 1}}},
 		// addresses issued while locked get their keys on unlock
-		{Pub: 0, Priv: 1, Probe: "all", Ops: []c05Op{{K: "next", Acct: 0}, {K: "next", Acct: 0, Int: true}, {K: "newacct", Sc: 1}, {K: "unlock", P: 1},
+		{Pub: 9, Priv: 1, Probe: "all", Ops: []c05Op{{K: "next", Acct: 0}, {K: "next", Acct: 0, Int: true}, {K: "newacct", Sc: 1}, {K: "unlock", P: 1},
 			{K: "newacct", Sc: 1}, {K: "next", Sc: 1, Acct: 1}, {K: "lock"}, {K: "next", Sc: 1, Acct: 1}, {K: "unlock", P: 1}, {K: "lock"}}},
+		// an empty private passphrase (only reachable through ChangePassphrase)
+		{Pub: 9, Priv: 1, Probe: "none", Ops: []c05Op{{K: "unlock", P: 1}, {K: "chpriv", P: 1, Q: 0}, {K: "unlock", P: 0}, {K: "unlock", P: 0},
+			{K: "unlock", P: 0}, {K: "lock"}, {K: "open", P: 9}, {K: "unlock", P: 0}, {K: "unlock", P: 0}}},
 		// conversion to watching-only while unlocked
-		{Pub: 0, Priv: 1, Probe: "all", Ops: []c05Op{{K: "unlock", P: 1}, {K: "next", Acct: 0}, {K: "imppriv", N: 1}, {K: "impscript", N: 2, Kind: "p2sh", Sec: true},
+		{Pub: 9, Priv: 1, Probe: "all", Ops: []c05Op{{K: "unlock", P: 1}, {K: "next", Acct: 0}, {K: "imppriv", N: 1}, {K: "impscript", N: 2, Kind: "p2sh", Sec: true},
 			{K: "impscript", N: 3, Kind: "witness", Sec: true}, {K: "impscript", N: 4, Kind: "taproot"}, {K: "dcache", Acct: 0, Br: 0, Idx: 0}, {K: "convert"},
-			{K: "unlock", P: 1}, {K: "lock"}, {K: "chpriv", P: 1, Q: 6}, {K: "imppriv", N: 5}, {K: "next", Acct: 0}, {K: "open", P: 0}, {K: "unlock", P: 1},
+			{K: "unlock", P: 1}, {K: "lock"}, {K: "chpriv", P: 1, Q: 6}, {K: "imppriv", N: 5}, {K: "next", Acct: 0}, {K: "open", P: 9}, {K: "unlock", P: 1},
 			{K: "impscript", N: 6, Kind: "witness"}, {K: "newwatch", Sc: 1}}},
 	}
 }
